@@ -44,7 +44,7 @@ impl Property for C12 {
         "C12"
     }
     fn rule(&self) -> String {
-        "sessions over a root r.td that includes i.td, where disk texts and editor buffers differ observably (each variant of i.td declares a differently named class, each variant of r.td uses one buffer class and the disk class, so outline and 'class not found' diagnostics reveal which text was analysed). Events: open/change of r.td or i.td with one of two buffer variants (a change of an unopened document is an open), close of either document (the disk is the truth again; checked at the next analysed step), a touch of an unrelated third document (root of a workspace without r.td and i.td), a change of r.td to a text without its include, and didSave of either document (no effect on which text is the truth; the disk keeps differing from the buffer, as after an external rewrite): every sequence of length <= 4 (thorough <= 5) over the 4 (document, variant) events, 2 closes, 2 saves and the 2 workspace-leaving events exhaustively, each with i.td present on disk, with i.td never saved (no file on disk), and with an i.td that includes r.td back (include cycle through every edited document) and - sequences of length <= 3 (thorough <= 4) - in a workspace directory the editor reaches through a symbolic link, and while another program rewrites both files on disk after every analysed step (buffer variant 0 then being the text on disk at that moment: a document opened unmodified). Reference session model: texts = disk overlaid by the buffers of opened documents, root = last touched document. After every step the last published diagnostics of every file of the model's workspace and the documentSymbol answer of every open document in it must equal a fresh ide-level analysis over the model's texts. distinct = digest of the event sequence; non-trivial = a step at which an open included document's buffer differs from disk while the other document is (re)analysed".into()
+        "sessions over a root r.td that includes i.td, where disk texts and editor buffers differ observably (each variant of i.td declares a differently named class, each variant of r.td uses one buffer class and the disk class, so outline and 'class not found' diagnostics reveal which text was analysed). Events: open/change of r.td or i.td with one of two buffer variants (a change of an unopened document is an open), close of either document (the disk is the truth again; checked at the next analysed step), a touch of an unrelated third document (root of a workspace without r.td and i.td), a change of r.td to a text without its include, and didSave of either document (no effect on which text is the truth; the disk keeps differing from the buffer, as after an external rewrite): every sequence of length <= 4 (thorough <= 5) over the 4 (document, variant) events, 2 closes, 2 saves and the 2 workspace-leaving events exhaustively (plus family reopened-documents: 1..3 further edits, a close, a re-open and an edit of the same document, with per-document version numbers that start over at every didOpen), each with i.td present on disk, with i.td never saved (no file on disk), and with an i.td that includes r.td back (include cycle through every edited document) and - sequences of length <= 3 (thorough <= 4) - in a workspace directory the editor reaches through a symbolic link, and while another program rewrites both files on disk after every analysed step (buffer variant 0 then being the text on disk at that moment: a document opened unmodified). Reference session model: texts = disk overlaid by the buffers of opened documents, root = last touched document. After every step the last published diagnostics of every file of the model's workspace and the documentSymbol answer of every open document in it must equal a fresh ide-level analysis over the model's texts. distinct = digest of the event sequence; non-trivial = a step at which an open included document's buffer differs from disk while the other document is (re)analysed".into()
     }
     fn assumptions(&self) -> Vec<String> {
         vec!["the disk is modified during a session only in the external-writes flavour (then after an analysed step, never during one); the model takes the last touched document as root because that is what didOpen/didChange do; a close triggers no analysis, so its effect is observed at the next open/change".into()]
@@ -109,6 +109,42 @@ impl Property for C12 {
                     }
                     if done {
                         break;
+                    }
+                }
+            }
+        })
+        .exhaustive(),
+        // longer sessions of one shape: a document is edited a few times, closed, opened again and edited
+        // again (an editor counts versions per document and starts over at every didOpen), then the other
+        // document is touched
+        Family::new("reopened-documents", 2, |d, _r, emit| {
+            for edits in 1..=3u64 {
+                for a in 0..2u64 {
+                    for tail in 0..3u64 {
+                        let mut ev: Vec<serde_json::Value> = vec![json!([d, a])];
+                        for k in 0..edits {
+                            ev.push(json!([d, (a + k + 1) % 2]));
+                        }
+                        ev.push(json!([d, 2]));
+                        ev.push(json!([d, a]));
+                        ev.push(json!([d, 1 - a]));
+                        match tail {
+                            0 => {}
+                            1 => ev.push(json!([1 - d, a])),
+                            _ => {
+                                ev.push(json!([1 - d, a]));
+                                ev.push(json!([d, a]));
+                            }
+                        }
+                        for flavour in ["plain", "cyclic"] {
+                            let mut c = json!({"kind": "buffer-session", "events": ev});
+                            if flavour == "cyclic" {
+                                c["cyclic"] = json!(true);
+                            }
+                            if !emit(c) {
+                                return;
+                            }
+                        }
                     }
                 }
             }
